@@ -122,7 +122,8 @@ class Model:
 
     @staticmethod
     def _mk(name, data):
-        if name in XML_PARTS:
+        # XML parts of the document and of embedded objects ("Object 1/content.xml")
+        if name in XML_PARTS or (name.count("/") == 1 and name.split("/")[1] in ("content.xml", "styles.xml", "meta.xml", "settings.xml")):
             try:
                 return ("xml", parse(data))
             except Exception:
@@ -252,6 +253,8 @@ class PackageMachine:
             ops += [("touch", "content"), ("touch", "styles"), ("touch", "meta"), ("touch", "manifest"), ("touch", "settings")]
             ops += [("edit_body",), ("edit_meta",), ("insert_style",), ("set_part_xml",), ("set_part_bin",), ("del_part_bin",)]
             ops += [("add_file", "path"), ("add_file", "io"), ("clone",)]
+            if self._object_parts(st):
+                ops += [("edit_object_part",)]
             ops += [("save", "zip"), ("save", "bytesio"), ("save", "folder"), ("save", "folder-default"), ("save", "zip-pretty"), ("save_xml",)]
             ops = [o for o in ops if not (o[0] == "save_xml" and getattr(st, "deleted", False))]
         elif alphabet == "c04":
@@ -264,6 +267,9 @@ class PackageMachine:
         return ops
 
     # ------------------------------------------------------------ step
+    def _object_parts(self, st):
+        return sorted(n for n, (k, _) in st.model.parts.items() if k == "xml" and "/" in n and n != MANIFEST)
+
     def _bin_names(self, st):
         return sorted(n for n, (k, _) in st.model.parts.items() if k == "bin" and n != "mimetype" and not n.endswith(("/", ".xml", ".rdf")))
 
@@ -311,6 +317,11 @@ class PackageMachine:
                 data = b'<?xml version="1.0" encoding="UTF-8"?>\n' + etree.tostring(alt)
                 doc.set_part("content.xml", data)
                 m.parts["content.xml"] = ("xml", parse(data))
+            elif name == "edit_object_part":
+                pn = self._object_parts(st)[0]
+                part = doc.get_part(pn)
+                part.root.set_attribute("office:version", "9.9")
+                m.parts[pn][1].set("{%s}version" % NS["office"], "9.9")
             elif name == "set_part_bin":
                 doc.set_part("Pictures/mcnew.bin", b"\x00\x01binary\xff")
                 m.parts["Pictures/mcnew.bin"] = ("bin", b"\x00\x01binary\xff")
